@@ -117,35 +117,54 @@ func genSteps(t *rapid.T, nseq, attempts int, statuses []int, inCond func(int) b
 			out = append(out, s)
 		}
 	}
-	n := rapid.IntRange(1, 36).Draw(t, "nsteps")
+	// raw, independent draws per step (so that rapid can delete steps while shrinking) ...
+	type raw struct {
+		Seq, First, NC, In, Status, Park, Adv int
+		Reuse                             bool
+	}
+	raws := rapid.SliceOfN(rapid.Custom(func(t *rapid.T) raw {
+		r := raw{
+			Seq:    rapid.IntRange(0, nseq-1).Draw(t, "seq"),
+			First:  rapid.IntRange(0, 11).Draw(t, "first-is-stray"),
+			NC:     rapid.IntRange(0, 2*attempts+3).Draw(t, "newcall"),
+			Reuse:  rapid.Bool().Draw(t, "reuse-req-id"),
+			In:     rapid.IntRange(0, 5).Draw(t, "out"),
+			Status: rapid.IntRange(0, 15).Draw(t, "status"),
+		}
+		if park {
+			r.Park = rapid.IntRange(0, 2).Draw(t, "park")
+		}
+		if advs != nil {
+			r.Adv = rapid.IntRange(0, len(advs)-1).Draw(t, "adv")
+		}
+		return r
+	}), 1, 36).Draw(t, "steps")
+	// ... turned into a history of logical calls
 	started := make([]bool, nseq)
 	reuse := make([]bool, nseq)
 	steps := []step{}
-	for i := 0; i < n; i++ {
-		st := step{Seq: rapid.IntRange(0, nseq-1).Draw(t, "seq")}
+	for _, r := range raws {
+		st := step{Seq: r.Seq}
 		if !started[st.Seq] {
-			// the very first response on an id: a call start, rarely a stray transaction
-			st.NewCall = rapid.IntRange(0, 11).Draw(t, "first-is-call") != 0
+			st.NewCall = r.First != 11 // the very first response on an id: a call start, rarely a stray transaction
 		} else {
-			st.NewCall = rapid.IntRange(0, 2*attempts+3).Draw(t, "newcall") == 0
+			st.NewCall = r.NC == 2*attempts+3
 		}
 		if st.NewCall {
 			st.IDEq = true
-			reuse[st.Seq] = rapid.Bool().Draw(t, "reuse-req-id")
+			reuse[st.Seq] = r.Reuse
 		} else {
 			st.IDEq = reuse[st.Seq] && started[st.Seq]
 		}
 		started[st.Seq] = true
-		if len(out) == 0 || (len(in) > 0 && rapid.IntRange(0, 5).Draw(t, "in") != 0) {
-			st.Status = rapid.SampledFrom(in).Draw(t, "status")
+		if len(out) == 0 || (len(in) > 0 && r.In != 5) {
+			st.Status = in[r.Status%len(in)]
 		} else {
-			st.Status = rapid.SampledFrom(out).Draw(t, "status")
+			st.Status = out[r.Status%len(out)]
 		}
-		if park {
-			st.Park = rapid.IntRange(0, 2).Draw(t, "park") == 0
-		}
+		st.Park = park && r.Park == 2
 		if advs != nil {
-			st.Adv = rapid.SampledFrom(advs).Draw(t, "adv")
+			st.Adv = advs[r.Adv]
 		}
 		steps = append(steps, st)
 	}
